@@ -28,7 +28,7 @@ class Sim:
         self.name = list(rng.choice([b"Boiler", "דוד שמש".encode(), b"a", b"Living room plug 01"]))
         self.ip = list(rng.randbytes(4))
         self.mac = list(rng.randbytes(6))
-        self.power, self.remaining, self.auto = 0, 0, 3600
+        self.power, self.remaining, self.auto, self.on_for = 0, 0, 3600, 0
         self.position, self.direction = 0, [0, 0]
         self.th = {"state": 0, "mode": 4, "target": 24, "fan": 1, "swing": 0, "temp10": 250, "remote": list(b"ELEC7022")}
         self.rng = rng
@@ -40,9 +40,10 @@ class Sim:
         if f[4:6] == b"\x02\x32" and f[6:8] == b"\x01\x02" and tail[:4] == b"\x00\x01\x06\x00" and n == 93:
             on, timer = tail[4], int.from_bytes(tail[6:10], "little")
             if on:
+                self.on_for = self.on_for if self.power else 0
                 self.power, self.remaining = 1, min(86399, timer if timer > 0 else self.auto)
             else:
-                self.power, self.remaining = 0, 0
+                self.power, self.remaining, self.on_for = 0, 0, 0
         elif f[4:6] == b"\x02\x32" and tail[:4] == b"\x00\x04\x04\x00" and n == 91:
             self.auto = min(86399, int.from_bytes(tail[4:8], "little"))
         elif f[6:8] == b"\x02\x02" and n == 116:
@@ -56,8 +57,9 @@ class Sim:
         if self.fam in ("heater", "plug") and self.power:
             if self.remaining > s:
                 self.remaining -= s
+                self.on_for = min(86399, self.on_for + s)
             else:
-                self.power, self.remaining = 0, 0
+                self.power, self.remaining, self.on_for = 0, 0, 0
 
     def broadcast(self) -> bytes:
         d = {"t": "bc", "fam": self.fam, "code": list(unhexlify(CODES[self.typ])), "seed": self.rng.randrange(1 << 30), "id": self.id,
@@ -69,6 +71,23 @@ class Sim:
         else:
             d.update(self.th)
         return make_datagram(d)
+
+    def state_reply(self) -> bytes:
+        """The answer to a state query: the device's state placed into random filler of a length real devices send."""
+        if self.fam in ("heater", "plug"):
+            b = bytearray(self.rng.randbytes(self.rng.choice([101, 105, 109])))
+            b[75] = self.power
+            b[77:79] = (2600 if self.power else 0).to_bytes(2, "little")
+            b[89:93] = self.remaining.to_bytes(4, "little")
+            b[93:97] = self.on_for.to_bytes(4, "little")
+            b[97:101] = self.auto.to_bytes(4, "little")
+            return bytes(b)
+        if self.fam == "shutter":
+            b = bytearray(self.rng.randbytes(self.rng.choice([80, 84, 100])))
+            b[76] = self.position
+            b[78:80] = bytes(self.direction)
+            return bytes(b)
+        return self.thermo_reply()
 
     def thermo_reply(self) -> bytes:
         b = bytearray(self.rng.randbytes(109))
@@ -86,6 +105,7 @@ class E2ERun:
         self.net = vnet.VNet()
         self.loop = vnet.VLoop(self.net)
         self.rng = random.Random(scn["seed"])
+        self.querying = False
 
     def log(self, **e):
         self.ev.append(e)
@@ -115,7 +135,10 @@ class E2ERun:
             self.log(ev="Frame", b=list(data))
             sim.apply(data)
             # answer like a device: a thermostat state for the type-2 state query, something non-empty otherwise
-            if data[4:6] == b"\x03\x05" and data[6:8] == b"\x01\x03":
+            if data[6:8] == b"\x01\x03" and len(data) == 48 and self.querying:
+                rep = sim.state_reply()
+                self.log(ev="Reply", b=list(rep))
+            elif data[4:6] == b"\x03\x05" and data[6:8] == b"\x01\x03":
                 rep = sim.thermo_reply()
             else:
                 rep = bytes(self.rng.randbytes(56))
@@ -133,6 +156,18 @@ class E2ERun:
             if do == "elapse":
                 sim.elapse(st["s"])
                 self.log(ev="Elapse", s=st["s"])
+            elif do in ("get_state", "get_shutter_state", "get_breeze_state"):
+                from .tcpdrive import _result_fields
+                self.log(ev="Op", op=do, a={})
+                self.querying = True
+                try:
+                    res = await getattr(api, do)()
+                    self.log(ev="Read", op=do, r=_result_fields(do, res, {}))
+                except Exception as x:  # noqa: BLE001 - the device answers with a well-formed reply: judged by the specification
+                    self.log(ev="OpRaised", exc=type(x).__name__)
+                finally:
+                    self.querying = False
+                continue          # a query changes nothing: no broadcast round needed
             else:
                 self.log(ev="Op", op=do, a=st["a"])
                 a = st["a"]
@@ -182,10 +217,15 @@ def scenarios(rng: random.Random, n: int) -> list[dict]:
                 elif c < 0.75:
                     steps.append({"do": "set_device_name", "a": {"cps": rng.choice([[66, 111, 105, 108, 101, 114], [0x5D3, 0x5D5, 0x5D3], [97, 98], [0x1F600, 0x1F525],
                                                                                   [67, 97, 102, 101, 0x301], [97 + q % 26 for q in range(32)]])}})
+                elif c < 0.87:
+                    steps.append({"do": "get_state", "a": {}})
                 else:
                     steps.append({"do": "elapse", "s": rng.choice([1, 59, 60, 1800, 3599, 3600, 86399])})
             elif fam == "shutter":
-                steps.append(rng.choice([{"do": "set_position", "a": {"pos": rng.randrange(101)}}, {"do": "stop", "a": {}}]))
+                steps.append(rng.choice([{"do": "set_position", "a": {"pos": rng.randrange(101)}}, {"do": "stop", "a": {}},
+                                         {"do": "get_shutter_state", "a": {}}]))
+            elif rng.random() < 0.3:
+                steps.append({"do": "get_breeze_state", "a": {}})
             else:
                 steps.append({"do": "update_state", "a": {"state": rng.randrange(2), "mode": rng.randrange(1, 6), "temp": rng.choice([16, 20, 24, 30]),
                                                           "fan": rng.randrange(4), "swing": rng.randrange(2)}})
